@@ -22,7 +22,20 @@ pub struct C18;
 fn gen_greeting(r: &mut Rng, i: u64) -> Vec<u8> {
     const P: &[u8] = b"OK MPD ";
     let version = |r: &mut Rng| -> Vec<u8> {
-        match r.below(12) {
+        match r.below(14) {
+            12 | 13 => {
+                // dotted numbers with one to four components, leading zeros allowed (verbatim means verbatim)
+                let n = r.range(1, 4);
+                let mut v = Vec::new();
+                for k in 0..n {
+                    if k > 0 {
+                        v.push(b'.');
+                    }
+                    let parts: [&[u8]; 8] = [b"0", b"1", b"24", b"05", b"23", b"007", b"100", b"4294967296"];
+                    v.extend_from_slice(parts[r.below(parts.len())]);
+                }
+                v
+            }
             0 => b"0.23.5".to_vec(),
             1 => b"0".to_vec(),
             2 => b" ".to_vec(),
@@ -364,6 +377,13 @@ impl C18 {
         if got != want {
             fail(acc, format!("connect_with_password returned {} instead of {}", got, want));
             return;
+        }
+        if let Some(Ok(v)) = &out.connect {
+            let g = &sc.world.greeting;
+            if v.as_bytes() != &g[7..g.len() - 1] {
+                fail(acc, format!("protocol_version() is {:?} but the greeting announced {:?}", v, String::from_utf8_lossy(&g[7..g.len() - 1])));
+                return;
+            }
         }
         // first thing written: `password <arg>` carrying the password byte for byte
         match a.units.first() {
